@@ -982,7 +982,8 @@ class TorControlProtocol(LineOnlyReceiver):
         # print "startCommand",self.code,line
         self.code = int(line[:3])
         # print "startCommand:",self.code
-        if self.command and self.command[2] is not None:
+        # (asynchronous 6xx events never belong to the command in flight)
+        if self.code < 600 and self.command and self.command[2] is not None:
             self.command[2](line[4:])
         else:
             self.response = line[4:] + '\n'
@@ -1009,7 +1010,7 @@ class TorControlProtocol(LineOnlyReceiver):
         # control-spec 2.3: the sender doubles a leading '.' of a data line
         if line.startswith('.'):
             line = line[1:]
-        if self.command and self.command[2] is not None:
+        if self.code < 600 and self.command and self.command[2] is not None:
             self.command[2](line)
 
         else:
@@ -1018,7 +1019,7 @@ class TorControlProtocol(LineOnlyReceiver):
 
     def _accumulate_response(self, line):
         "for FSM"
-        if self.command and self.command[2] is not None:
+        if self.code < 600 and self.command and self.command[2] is not None:
             self.command[2](line[4:])
 
         else:
